@@ -2,7 +2,7 @@
 import itertools, random
 
 ABBR_ALPHA = list("aA1$#.[]{}()*>+^=\"'\\ @-/!:")          # 26 symbols: the punctuation alphabet of the abbreviation language
-CSS_ABBR_ALPHA = list("ab1.#-+!,:()\"'$@%/ t{}_")
+CSS_ABBR_ALPHA = list("ab1.#-+!,:()\"'$@%/ t{}_G")
 HTML_ALPHA = list("<>/=\"'a b-![]?")
 CSSDOC_ALPHA = list("{}:;()\"'\\/*a- \n")
 MATH_ALPHA = list("12.+-*/\\() ")
